@@ -78,6 +78,26 @@ func canonical() []runCase {
 	add("vectoradd", []int{4096, 2}, cd(2, true, false))           // 128 work-groups: exactly one per compute unit of two GPUs
 	add("relu", []int{8192}, g(2, true, false))                    // 128 work-groups
 	add("relu", []int{16384}, g(4, true, true))                    // 256 work-groups over four GPUs
+	// unified GPUs with 2-D grids that are tall (few work-group columns, many
+	// rows), wide, or larger than one work-group per compute unit: the shapes
+	// on which the driver's unified launch path (flattened work-group id,
+	// per-GPU share) can lose work-groups. All emulation, all must verify.
+	add("im2col", []int{1, 64, 6, 6, 3, 0, 1, 1}, g(2, true, false))    // 2 x 72
+	add("im2col", []int{1, 64, 6, 6, 3, 0, 1, 1}, g(4, true, false))    // 2 x 72
+	add("im2col", []int{1, 40, 5, 7, 3, 0, 1, 1}, cd(4, true, true))    // 2 x 45, non-square image
+	add("im2col", []int{8, 1, 12, 12, 3, 0, 1, 1}, g(4, true, false))   // 100 x 2
+	add("im2col", []int{2, 16, 10, 10, 3, 1, 1, 1}, cd(2, true, false)) // 25 x 18 = 450
+	add("stencil2d", []int{32, 1280, 1}, g(2, true, false))             // 2 x 20
+	add("stencil2d", []int{32, 2048, 2}, g(4, true, false))             // 2 x 32
+	add("stencil2d", []int{32, 1280, 1}, cd(4, true, false))            // 2 x 20
+	add("stencil2d", []int{320, 64, 1}, g(4, true, true))               // 20 x 1
+	add("stencil2d", []int{272, 128, 1}, cd(2, true, false))            // 17 x 2
+	add("matrixtranspose", []int{1280}, g(4, true, false))              // 20 x 20 = 400
+	add("matrixtranspose", []int{1088}, cd(2, true, false))             // 17 x 17 = 289
+	add("floydwarshall", []int{136, 2}, g(4, true, false))              // 17 x 17 = 289
+	add("floydwarshall", []int{96, 3}, cd(2, true, false))              // 12 x 12 = 144
+	add("lenet", []int{1, 1, 1}, g(2, true, false))                     // tall gemm / transpose grids of the layers
+	add("minerva", []int{1, 1, 1}, g(4, true, false))                   // 784x256 layer: 16 x 49 gemm grid and its transposes
 	// timing platforms
 	add("fir", []int{1024, 16}, tm(g(1, false, false)))
 	add("matrixtranspose", []int{128}, tm(g(1, false, false)))
@@ -112,16 +132,17 @@ func canonical() []runCase {
 	add("pagerank", []int{33, 200, 3}, tm(g(1, false, false)))
 	add("pagerank", []int{64, 2048, 2}, tm(g(1, false, false))) // acceptance size: holds
 
-	// region: nw with three or more 64-blocks (the package default length is 256)
+	// fixed upstream (b6371032, ac05422c, efd0931d): now anchors that must hold
+	// nw with three or more 64-blocks (the package default length is 256)
 	add("nw", []int{192}, g(1, false, false))
 	add("nw", []int{256}, cd(1, false, false))
 	add("nw", []int{192}, tm(g(1, false, false)))
 
-	// region: spmv on cdna3 with more than one work-group
+	// spmv on cdna3 with more than one work-group
 	add("spmv", []int{130, 30}, cd(1, false, false))
 	add("spmv", []int{256, 10}, cd(1, false, false))
 
-	// region: im2col with a non-square input (host reference)
+	// im2col with a non-square input (host reference)
 	add("im2col", []int{1, 2, 9, 7, 3, 1, 2, 1}, g(1, false, false))
 	add("im2col", []int{1, 2, 9, 7, 3, 1, 2, 1}, cd(1, false, false))
 
